@@ -358,6 +358,13 @@ def operations(seed, n):
                        # arrays of half-turn attitudes only (scalar part exactly 0, as the N-by-3 route builds them)
                        ("average[half-turns, N-by-3]", lambda: np.asarray(QuaternionArray(near[:, 1:]).average())),
                        ("average[half-turns, w=0]", lambda: np.asarray(QuaternionArray(np.c_[np.zeros(N), near[:, 1:] * 3.0]).average(weights=np.arange(1.0, N + 1)))),
+                       # a single attitude averaged (one-row array; a span selecting one row), with and without a weight other than 1; spans
+                       ("average[one row]", lambda: np.asarray(QuaternionArray(near[:1]).average())),
+                       ("average[one row, weight]", lambda: np.asarray(QuaternionArray(near[:1]).average(weights=np.array([2.6])))),
+                       ("average[span of one row, weight]", lambda: np.asarray(QuaternionArray(near).average(span=(1, 2), weights=np.array([0.32])))),
+                       ("average[span]", lambda: np.asarray(QuaternionArray(near).average(span=(0, N - 1)))),
+                       ("average[span, weights]", lambda: np.asarray(QuaternionArray(near).average(span=(1, N), weights=r.uniform(0.5, 2, size=N - 1)))),
+                       ("average[S]", lambda: np.roll(np.asarray(QuaternionArray(np.roll(near, -1, axis=1), order="S").average(weights=r.uniform(0.5, 2, size=N))), 1)),
                        ("random_attitudes", lambda: np.asarray(random_attitudes(N))),
                        ("random_attitudes[1]", lambda: np.asarray(random_attitudes(1))),
                        ("random_attitudes[rotmat]", lambda: np.asarray(random_attitudes(N, representation="rotmat"))),
